@@ -214,6 +214,9 @@ func genShape(t *rapid.T, label string) (shape, []pt) {
 		s := shape{Kind: "polygon"}
 		c := pt{rapid.Float64Range(-150, 150).Draw(t, label+".plon"), rapid.Float64Range(-60, 60).Draw(t, label+".plat")}
 		r := rapid.Float64Range(0.5, 20).Draw(t, label+".pr")
+		if rapid.IntRange(0, 3).Draw(t, label+".pbig") == 0 {
+			r = rapid.Float64Range(20, 29).Draw(t, label+".prbig")
+		}
 		k := rapid.IntRange(3, 8).Draw(t, label+".k")
 		angles := make([]float64, k)
 		for i := range angles {
@@ -231,13 +234,19 @@ func genShape(t *rapid.T, label string) (shape, []pt) {
 				break
 			}
 		}
+		// either vertex order; and large polygons (tens of degrees across)
+		if rapid.Bool().Draw(t, label+".clockwise") {
+			for i, j := 0, len(s.Poly)-1; i < j; i, j = i+1, j-1 {
+				s.Poly[i], s.Poly[j] = s.Poly[j], s.Poly[i]
+			}
+		}
 		return s, append([]pt{c}, s.Poly...)
 	}
 }
 
 func TestC18Geo(t *testing.T) {
 	ev := Ev("C18")
-	ev.SetRule("rapid: 2-4 shapes per case (boxes incl. date-line crossing, pole touching, thin; circles 1 m .. 19500 km (fixed ladder or log-uniform; beyond a quarter of the circumference the circle is larger than a hemisphere) incl. date line and poles; star-shaped polygons with 3-8 vertices) and 6-20 documents with 0-3 geopoints each (uniform on the sphere, specials at +-180/+-90, points at 1e-5..5 degrees from the shape's vertices/centre) on upsidedown, scorch and scorch+s2; " +
+	ev.SetRule("rapid: 2-4 shapes per case (boxes incl. date-line crossing, pole touching, thin; circles 1 m .. 19500 km (fixed ladder or log-uniform; beyond a quarter of the circumference the circle is larger than a hemisphere) incl. date line and poles; star-shaped polygons with 3-8 vertices, 0.5-29 degrees in radius, listed counter-clockwise or clockwise) and 6-20 documents with 0-3 geopoints each (uniform on the sphere, specials at +-180/+-90, points at 1e-5..5 degrees from the shape's vertices/centre) on upsidedown, scorch and scorch+s2; " +
 		"oracle = exact geometry with a margin band (box/polygon 2e-6 deg; circle haversine with both ellipsoid radii, 0.5% + 1 m): Yes docs must be hits, No docs must not; point encoding round trip within one quantum; geo-distance sort is non-decreasing within the same band; " +
 		"non-trivial = >=1 Yes and >=1 No document and >=1 multi-valued document")
 	ev.Assume("points inside the margin band are not judged (stated resolution of the encoding)")
